@@ -265,7 +265,19 @@ def cases(seed, tier):
 
 
 PARTIAL = []
-TECHNIQUE = ("Lean 4 proof over an executable model of genbank.Parse / ParseMulti / ParseFlat against an independent flat-file writer; "
-             "differential correspondence on generated (record, layout) pairs")
-LEVEL_TEXT = "see PARTIAL"
-LEVEL_NOTE = ""
+TECHNIQUE = ("Lean 4 proof over an executable model of genbank.Parse / ParseMulti / ParseFlat against an independent flat-file "
+             "writer (round trip parse (layout r l) = r for every record and every layout choice); differential correspondence "
+             "on generated (record, layout) pairs")
+LEVEL_TEXT = ("Every clause is a kernel-checked theorem about the model for ALL abstract records in the domain predicate wf and ALL "
+              "layout choices (no bound on sequence length below 10^8, number of features, qualifiers, references, records, line "
+              "widths): origin_recovered, locus_recovered (every name, every number of digits, 4 molecule types, 2 topologies, "
+              "18 divisions, all gaps), sublines_rejoined/block_rejoined, source_organism_recovered, reference_recovered, "
+              "features_recovered (multi-line locations with and without qualifiers, values with '/', '=', wrapped before '/', "
+              "/translation cut mid-token), parse_layout (composition on the text, with and without final newline), "
+              "parseMulti_layout + parseMulti_eq_parse_each (k records -> k results, each = parsing the record alone), "
+              "parseFlat_layout (any 10-line header). The model is tied to /repo by correspondence on the same (record, layout) "
+              "pairs: Parse, ParseMulti, ParseFlat and Read, ReadMulti, ReadFlat, ReadFlatGz, all fields the property lists.")
+LEVEL_NOTE = ("Trusted: Lean kernel; Spec/GbLayout.lean (the writer and wf, typed from the NCBI flat-file description); the scanners that "
+              "stand for the four regular expressions; ASCII; parseLocation (C02) not panicking on domain location texts; "
+              "file I/O and gzip of the Read* wrappers. Five defects found by this check were repaired in /repo (5a12a0c, c94d396, "
+              "49c2e81, d6becc3, 1a072ef); their exemplars stay in gen/corpus/C01 as regression cases.")
